@@ -54,6 +54,14 @@ var sourceCalls = map[string]int{
 	"invoke:binary.ByteOrder.Uint16":  0,
 	"invoke:binary.ByteOrder.Uint32":  0,
 	"invoke:binary.ByteOrder.Uint64":  0,
+	// the number of bytes a read delivered depends on the input (a short
+	// file): at most len(buf), but possibly less than a constant the code goes
+	// on to use as a lower slice bound
+	"io.ReadFull":           0,
+	"io.ReadAtLeast":        0,
+	"invoke:io.Reader.Read": 0,
+	"(*os.File).Read":       0,
+	"(*bytes.Buffer).Read":  0,
 }
 
 func isInteger(t types.Type) bool {
@@ -736,6 +744,10 @@ func (a *Analysis) upper(v ssa.Value, at *ssa.BasicBlock, depth int, seen map[ss
 			better(agg)
 		}
 	}
+	// 2b. the count a read reports is at most the length of the buffer it was given (io.Reader contract)
+	if buf := readBuffer(v); buf != nil {
+		better(Bound{Kind: LenB, S: prov.Of(buf), Why: "a read delivers at most len(buffer) bytes"})
+	}
 	// 3. type
 	if best.Kind == Unbounded {
 		if tm, ok := typeMax(v.Type(), a.Sizes); ok && tm <= math.MaxUint32 {
@@ -1098,6 +1110,9 @@ func (a *Analysis) leqLen(v, s ssa.Value, b *ssa.BasicBlock) (bool, string) {
 	if c, ok := constOf(v); ok && c == 0 {
 		return true, "zero"
 	}
+	if buf := readBuffer(stripConv(v)); buf != nil && same(buf, s) {
+		return true, "a read delivers at most len(buffer) bytes, and the buffer is the sliced value"
+	}
 	ts := prov.Of(s)
 	ub := a.Upper(v, b)
 	if ub.Kind == LenB && ub.C == 0 && ub.S == ts && (pureTerm(ts) || a.stableField(s)) {
@@ -1117,6 +1132,30 @@ func (a *Analysis) leqLen(v, s ssa.Value, b *ssa.BasicBlock) (bool, string) {
 		return true, why
 	}
 	return false, ""
+}
+
+// readBuffer: v is the byte count reported by a read call; the result is
+// the buffer that call filled (io.Reader contract: 0 <= n <= len(buffer)).
+func readBuffer(v ssa.Value) ssa.Value {
+	ex, ok := v.(*ssa.Extract)
+	if !ok || ex.Index != 0 {
+		return nil
+	}
+	c, ok := ex.Tuple.(*ssa.Call)
+	if !ok {
+		return nil
+	}
+	switch prov.CalleeName(&c.Call) {
+	case "io.ReadFull", "io.ReadAtLeast", "(*os.File).Read", "(*bytes.Buffer).Read":
+		if len(c.Call.Args) >= 2 {
+			return c.Call.Args[1]
+		}
+	case "invoke:io.Reader.Read":
+		if len(c.Call.Args) >= 1 {
+			return c.Call.Args[0]
+		}
+	}
+	return nil
 }
 
 // stableField: s is a load of a struct field that is never stored outside
